@@ -11,13 +11,13 @@ from ..gen import modules as gm
 
 LEAN_TARGETS = ['XdocModel.Proofs.C16', 'XdocModel.Pins.Collect']
 MANIFEST = {
-    'text': ("Partial (after repair 09d4434). Proved for ALL mini-ASTs of the fragment: `static_eq_dynamic` — the (callname, docstring) pairs "
+    'text': ("Partial (after repairs 09d4434, 29b8101, d1ce38f). Proved for ALL mini-ASTs of the fragment: `static_eq_dynamic` — the (callname, docstring) pairs "
              "collected by the model of the AST visitor equal, as lists and hence as sets, the pairs collected by the model of the "
              "module/class __dict__ walk (`iter_module_doctestables` + `is_defined_by_module` + `parse_dynamic_calldefs`) on the object graph "
              "that importing the module builds (`execModule`). The fragment is an explicit decidable predicate (`InFragment`, "
              "`fragmentOk_iff`): decorators that keep __module__/__name__/__doc__ (wrappers staticmethod/classmethod/property only in first "
              "position, setters/deleters re-binding a property), every branch holding definitions executed by the import, the main guard "
-             "not executed and without definitions in its else branch, distinct names per scope; a witness shows the collectors differ "
+             "block not executed (its else branch is an ordinary branch), distinct names per scope; a witness shows the collectors differ "
              "outside it. Doctests are a function of (callname, docstring, style), so equal pairs give equal identifiers and sources. "
              "Observed, not proved: that an import builds `execModule` (link 3: compared with vars() of the really imported module on every "
              "generated file), the import machinery. Links 1 (static model vs parse_static_calldefs) and 2 (dynamic model vs "
